@@ -324,6 +324,43 @@ def reentry_programs():
     return out
 
 
+def interpolation_programs():
+    """an exception raised INSIDE a string interpolation — "a {$..} b" and heredoc — must reach the enclosing try like any
+    other: the raiser is the index of `{$a[..]}` (a throwing function, an undefined function, a Go panic, a refused named
+    argument) or a closure call `{$f(..)}`; the string is echoed / assigned / returned from a function / passed as an
+    argument; the try has a matching clause, a non-matching one, only a finally; controls without a throw.
+    (/repo fcbab56: the interpolated expression was a nested Program, which hands a throw to the uncaught handler.)"""
+    out = []
+    thr = {"name": "thr", "params": [["k", None]], "body": [tag("<thr", var("k")), ["throw", ["new", "E2", lit("boom")]]]}
+    okf = {"name": "okf", "params": [["k", None]], "body": [["return", var("k")]]}
+    f3 = {"name": "f3", "params": [["a", [0]]], "body": [["return", var("a")]]}
+    show = {"name": "show", "params": [["s", None]], "body": [["echo", var("s")], ["return", lit(1)]]}
+    clos = [{"params": [["p", None]], "uses": [], "body": [tag("<clo", var("p")), ["throw", ["new", "E1", lit("fromclo")]]], "arrow": False},
+            {"params": [["p", None]], "uses": [], "body": [["return", ["bin", "Add", var("p"), lit(1)]]], "arrow": True}]
+    raisers = {"thrower": ["idx", "arr", ["call", "thr", [lit(0)]]], "undefined": ["idx", "arr", ["call", "nosuch", [lit(0)]]],
+               "panic": ["idx", "arr", ["panic"]], "named": ["idx", "arr", ["calln", "f3", [], [["zz", lit(1)]]]],
+               "closure": ["callv", var("bad"), [lit(1)]], "none-idx": ["idx", "arr", ["call", "okf", [lit(1)]]], "none-clo": ["callv", var("good"), [lit(1)]]}
+    layouts = {"match": [["E1", "e", [echo("<E1>")]], ["Exception", "e", [echo("<Ex>")]]], "throwable": [["Throwable", None, [echo("<T>")]]],
+               "nomatch": [["E4", "e", [echo("<E4>")]]], "none": []}
+    pro = [["expr", ["assign", "arr", ["arr", [lit(10), lit(20)]]]], ["expr", ["assign", "bad", ["closure", 0]]], ["expr", ["assign", "good", ["closure", 1]]]]
+    for rn, rz in raisers.items():
+        for heredoc in (False, True):
+            s_ = ["interp", ["a ", var("arr") if False else ["idx", "arr", lit(0)], " m ", rz, " z"], heredoc]
+            uses = {"echo": [["echo", s_]], "assign": [["expr", ["assign", "s", s_]], ["echo", var("s")]],
+                    "arg": [["expr", ["call", "show", [s_]]]], "return": [["echo", ["call", "mk", []]]]}
+            for un, use in uses.items():
+                if heredoc and un in ("arg",):
+                    continue
+                for ln, lay in layouts.items():
+                    if (un != "echo" or heredoc) and ln in ("throwable", "nomatch") and rn not in ("thrower", "closure"):
+                        continue
+                    mk = {"name": "mk", "params": [], "body": pro + [["try", [["return", s_]], [], [echo("{mkfin}")]]]}
+                    inner = ["try", [echo("(t)")] + use + [echo(";after")], lay, [echo("{f}")]]
+                    main = pro + [["try", [inner, echo(";next")], [["Exception", None, [echo(";outer")]]], [echo(";F")]]]
+                    out.append({"classes": CLASSES, "ifaces": IFACES, "funcs": [thr, okf, f3, show, mk], "closures": clos, "main": main})
+    return out
+
+
 def hierarchy_programs():
     """interfaces declared at every level of the extends chain (own class, parent, grandparent) and reached through
     interface-extends chains; the catch clauses are ordered so that a wrong answer of the type test changes which
@@ -814,6 +851,8 @@ def main(ck):
             cases.append((pr, "sequences"))
         for pr in reentry_programs():
             cases.append((pr, "reentry"))
+        for pr in interpolation_programs():
+            cases.append((pr, "interpolation"))
         nrand = 250 if ck.tier == "quick" else 4000
         discarded = 0
         while nrand > 0:
